@@ -554,7 +554,11 @@ func gmStream(r *rng, s *sink) []byte {
 	for i := 0; i < n; i++ {
 		switch r.intn(7) {
 		case 0, 1:
-			kids = append(kids, gmMeta(r, pick(r, gmMetaKeys)))
+			key := pick(r, gmMetaKeys)
+			if r.chance(1, 5) {
+				key = pick(r, []string{"DVNM", "DVID"}) // a device-level key restated inside the stream
+			}
+			kids = append(kids, gmMeta(r, key))
 		case 2, 3:
 			kids = append(kids, gmSensor(r, s)...)
 		case 4:
@@ -580,6 +584,10 @@ func gmTree(r *rng, s *sink) []byte {
 		}
 		if r.chance(4, 5) {
 			kids = append(kids, gmMeta(r, "DVNM"))
+		}
+		// device-level descriptive values that streams may restate
+		for k := r.intn(3); k > 0; k-- {
+			kids = append(kids, gmMeta(r, pick(r, gmMetaKeys)))
 		}
 		ns := r.intn(4)
 		for i := 0; i < ns; i++ {
